@@ -31,16 +31,16 @@ func init() {
 // constructors that try to register the reserved types (must all be rejected)
 type fakeCtx struct{ context.Context }
 
-func retScope() godi.Scope                         { return nil }
-func retProvider() godi.Provider                   { return nil }
-func retCtx() context.Context                      { return context.Background() }
-func retCtxErr() (context.Context, error)          { return context.Background(), nil }
-func retK0AndCtx() (*pool.K0, context.Context)     { return &pool.K0{}, context.Background() }
-func retScopeAndK1() (godi.Scope, *pool.K1)        { return nil, &pool.K1{} }
-func newFakeCtx() *fakeCtx                         { return &fakeCtx{context.Background()} }
-func retOutCtx() outCtx                            { return outCtx{K: &pool.K2{}, C: context.Background()} }
-func retOutProviderNamed() outProv                 { return outProv{} }
-func retOutScopeGroup() outScopeGroup              { return outScopeGroup{} }
+func retScope() godi.Scope                     { return nil }
+func retProvider() godi.Provider               { return nil }
+func retCtx() context.Context                  { return context.Background() }
+func retCtxErr() (context.Context, error)      { return context.Background(), nil }
+func retK0AndCtx() (*pool.K0, context.Context) { return &pool.K0{}, context.Background() }
+func retScopeAndK1() (godi.Scope, *pool.K1)    { return nil, &pool.K1{} }
+func newFakeCtx() *fakeCtx                     { return &fakeCtx{context.Background()} }
+func retOutCtx() outCtx                        { return outCtx{K: &pool.K2{}, C: context.Background()} }
+func retOutProviderNamed() outProv             { return outProv{} }
+func retOutScopeGroup() outScopeGroup          { return outScopeGroup{} }
 
 type outCtx struct {
 	godi.Out
@@ -70,7 +70,6 @@ func reservedAttempts() []reservedAttempt {
 		{"ctor-returns-Context-error", func(c godi.Collection) error { return c.AddScoped(retCtxErr) }, "direct"},
 		{"keyed-Context", func(c godi.Collection) error { return c.AddSingleton(retCtx, godi.Name("k")) }, "keyed"},
 		{"grouped-Scope", func(c godi.Collection) error { return c.AddScoped(retScope, godi.Group("g")) }, "grouped"},
-		{"value-Context", func(c godi.Collection) error { return c.AddSingleton(context.Background()) }, "value"},
 		{"as-Context", func(c godi.Collection) error { return c.AddSingleton(newFakeCtx, godi.As[context.Context]()) }, "as"},
 		{"multi-return-second-is-Context", func(c godi.Collection) error { return c.AddScoped(retK0AndCtx) }, "multi-return"},
 		{"multi-return-first-is-Scope", func(c godi.Collection) error { return c.AddScoped(retScopeAndK1) }, "multi-return"},
@@ -463,6 +462,7 @@ func runFaulted(c *eng.Ctx, idx int, s *Spec, m *Model, ops []Op, fault rt.Fault
 					var p2 godi.Provider
 					var err2 error
 					var pan any
+					r.Rec.NoLog = true // the retry is judged by its verdict only; keep it out of the conservation log
 					func() {
 						defer func() { pan = recover() }()
 						p2, err2 = r.Coll.Build()
@@ -472,6 +472,7 @@ func runFaulted(c *eng.Ctx, idx int, s *Spec, m *Model, ops []Op, fault rt.Fault
 					} else {
 						_ = p2.Close()
 					}
+					r.Rec.NoLog = false
 				}
 			}
 			continue
@@ -545,4 +546,3 @@ func containsOp(detail string, opIdx int) bool {
 	p := fmt.Sprintf("op%d ", opIdx)
 	return len(detail) >= len(p) && detail[:len(p)] == p
 }
-
